@@ -28,8 +28,15 @@ impl Report {
     pub fn count(&mut self, key: &str, n: u64) {
         *self.counts.entry(key.to_string()).or_insert(0) += n;
     }
+    /// Keeps at most 4 mismatches per class (call, kind/what, expected, got, panic site, depth >= 64)
+    /// so that a frequent class can never crowd out a rare one.
     pub fn bad(&mut self, v: Value) {
-        if self.mismatches.len() < 200 {
+        let site = v["msg"].as_str().or(v["detail"]["panic"].as_str()).unwrap_or("");
+        let site: String = site.split(": ").next().unwrap_or("").to_string();
+        let key = format!("bad:{}|{}{}|{}|{}|{}|{}", v["call"], v["kind"], v["what"], v["expected"], v["got"], site,
+                          v["depth"].as_u64().map(|d| d >= 64).unwrap_or(false));
+        self.count(&key, 1);
+        if self.counts[&key] <= 4 {
             self.mismatches.push(v);
         }
         self.count("mismatches", 1);
@@ -63,7 +70,9 @@ fn emit(reports: Vec<Report>, nrecs: usize, extra: Value) -> i32 {
             out.emit(&m);
         }
         for (k, v) in r.counts {
-            *total.entry(k).or_insert(0) += v;
+            if !k.starts_with("bad:") {
+                *total.entry(k).or_insert(0) += v;
+            }
         }
     }
     out.emit(&json!({"summary": true, "records": nrecs, "counts": total, "extra": extra}));
